@@ -69,7 +69,7 @@ def exc_sub(exc: BaseException, prefix: str = "exc") -> Optional[str]:
 class Clause:
     id: str
     doc: str
-    kind: str = "given"  # given | enum | history
+    kind: str = "given"  # given | enum | history | fuzz
     strategy: Optional[Callable[[], Any]] = None  # given: () -> hypothesis strategy of cases
     enum: Optional[Callable[[str, int, int, Any], Iterable[Any]]] = None  # (tier, shard, nshards, rng)
     history: Optional["HistorySpec"] = None
@@ -83,6 +83,8 @@ class Clause:
     exhaustive_note: str = ""
     last_evals: int = 1
     weight_by_evals: bool = False  # each of the n sub-evaluations of a case is a distinct non-trivial item (fault enumeration)
+    tiers: tuple = ("quick", "thorough")  # tiers in which the clause runs
+    fuzz: Optional[Dict[str, Any]] = None  # kind == "fuzz": {"prop": "C10", "runs": {"thorough": N}, "seeded": k}
 
     def run_check(self, case) -> List[Dev]:
         """Run the oracle on one case; library exceptions that escape become deviations.
